@@ -192,6 +192,46 @@ func c10list(k *mon.Case, f *sfnt.Font, n int, info *fontgen.Info) []glyph.ID {
 		k.Class("list:ligature-chain-components-only")
 		return append(list, in...)
 	}
+	if co, ok := f.Outlines.(*cff.Outlines); ok && co.Encoding != nil && r.IntN(2) == 0 {
+		// a simple CFF font with (nearly) all 256 codes in use: every glyph is
+		// kept, neighbours stay together and the pairs are shuffled - about
+		// 128 runs of codes, which the format can still express
+		encoded := 0
+		for _, g := range co.Encoding {
+			if g != 0 {
+				encoded++
+			}
+		}
+		if encoded >= 250 {
+			// the encoded glyphs first (the format wants them at the front),
+			// the others behind them
+			isEnc := make([]bool, n)
+			for _, g := range co.Encoding {
+				if int(g) < n {
+					isEnc[g] = true
+				}
+			}
+			var pairs [][]glyph.ID
+			var rest []glyph.ID
+			for i := 1; i < n; i++ {
+				switch {
+				case !isEnc[i]:
+					rest = append(rest, glyph.ID(i))
+				case len(pairs) > 0 && len(pairs[len(pairs)-1]) == 1 && pairs[len(pairs)-1][0] == glyph.ID(i-1):
+					pairs[len(pairs)-1] = append(pairs[len(pairs)-1], glyph.ID(i))
+				default:
+					pairs = append(pairs, []glyph.ID{glyph.ID(i)})
+				}
+			}
+			r.Shuffle(len(pairs), func(i, j int) { pairs[i], pairs[j] = pairs[j], pairs[i] })
+			for _, p := range pairs {
+				list = append(list, p...)
+			}
+			list = append(list, rest...)
+			k.Class("list:all-codes-in-use,pairs-shuffled")
+			return list
+		}
+	}
 	if n > 262 && r.IntN(3) == 0 {
 		// just below 256 listed glyphs, so that the glyphs the subsetter
 		// appends (components, ligatures) get ids from 256 on (one-byte glyph
@@ -246,6 +286,16 @@ func runC10(c *mon.Ctx) {
 		if k.Index%4 == 3 {
 			// as applications get it: the font is read from a file first
 			f = readBack(k, f)
+		}
+		if co, ok := f.Outlines.(*cff.Outlines); ok && !co.IsCIDKeyed() && f.NumGlyphs() > 256 && r.IntN(2) == 0 {
+			// every one of the 256 codes (or all but one or two) is in use
+			enc := make([]glyph.ID, 256)
+			start := r.IntN(256)
+			for g := 1; g <= 256-(k.Index/21)%3; g++ {
+				enc[(start+g-1)%256] = glyph.ID(g)
+			}
+			co.Encoding = enc
+			k.Class(fmt.Sprintf("cff:encoding-%d-codes", 256-(k.Index/21)%3))
 		}
 		// now and then a character map subtable in a format the library keeps
 		// but does not decode
@@ -863,7 +913,7 @@ func runC10(c *mon.Ctx) {
 		}
 		k.Class("cff-outlines-subset:" + info.Kind)
 	})
-	c.Require("cmap-undecoded-subtable:format13", "cmap-undecoded-subtable:format10", "cmap-undecoded-subtable:format14", "cmap-undecoded-subtable:format0-mac-japanese", "callers-list-reused", "list:just-below-256", "list:ligature-chain-components-only", "kind=glyf", "kind=cff", "kind=cid", "cmap-compared", "encoding-compared", "kerning-compared", "gsub-rules-compared",
+	c.Require("list:all-codes-in-use,pairs-shuffled", "cff:encoding-256-codes", "cff:encoding-255-codes", "cmap-undecoded-subtable:format13", "cmap-undecoded-subtable:format10", "cmap-undecoded-subtable:format14", "cmap-undecoded-subtable:format0-mac-japanese", "callers-list-reused", "list:just-below-256", "list:ligature-chain-components-only", "kind=glyf", "kind=cff", "kind=cid", "cmap-compared", "encoding-compared", "kerning-compared", "gsub-rules-compared",
 		"written-and-read-back", "original-font-unchanged", "extras-appended:glyf", "cff-outlines-subset:cff", "cff-outlines-subset:cid")
 }
 
